@@ -7,14 +7,15 @@ CLAIMED = {
  'C13': dict(
    text="Function-level proof (Verus on the verbatim-extracted Int32 arm of DiskRowset::start_rowid): for every sparse first-key index, "
         "every sorted key column with duplicates and every lower bound, the seek position never skips a row with key >= bound. "
-        "Partial: the per-row mask in RowSetIterator, the planner's range analysis and the column-position assumptions are not under contract.",
+        "Also the index-entry bookkeeping of BlockIndexBuilder::finish_block (first row ids tile the row space). Partial: the per-row mask in RowSetIterator, the planner's range analysis and the column-position assumptions are not under contract.",
    note="Assumes: index entries record the key at their first row (writer side, U-finishblock), i32::decode is a function of the bytes, key column = storage column 0, key type Int32.",
    technique="Verus contracts + loop invariant on mechanically extracted statement range of start_rowid", design='5 (C13), 4.1 U-startrow'),
  'C18': dict(
-   text="Function-level proofs: checksum build/verify pair (accept iff stored == sum(type,data)); further units (block meta decode+verify before caching, "
-        "index footer totality / all-bytes-consumed) as listed in the evidence. crc32 is uninterpreted; detection = mismatch => Err on first and every later read.",
+   text="Function-level proofs of the whole detection chain: checksum build/verify pair (accept iff stored == sum(type,data)); 16-byte block trailer codec and Column::decode_block_meta (Ok iff the trailer parses and the stored sum equals the sum over block[..len-12]); "
+        "get_block: only intact blocks enter the cache, a corrupted uncached block errs on every read; ColumnIndex::from_bytes total and Ok iff long enough, magic, checksum over the entry bytes, count entries consume exactly those bytes; writer side (IndexBuilder, BlockIndexBuilder) agrees with the reader. "
+        "crc32 is uninterpreted; one bounded Kani harness checks the trailer byte layout. Known finding: the checksum TYPE field is not protected (H13).",
    note="Assumes: crc32fast::hash deterministic (A-crc); moka cache inserts iff the loader returns Ok (A-moka); prost decode consumes one entry or errs (A-prost); async sequentialised.",
-   technique="Verus contracts on extracted checksum / block-meta / index-footer functions", design='5 (C18), 4.3'),
+   technique="Verus contracts on extracted checksum / block-meta / get_block / index-footer functions + one bounded Kani layout harness", design='5 (C18), 4.3'),
 }
 
 CLAIMED.update({
@@ -22,21 +23,22 @@ CLAIMED.update({
    text="Function-level proof of the one piece of crash logic that is a function of data: the record-replay loop of Manifest::replay, extracted verbatim. "
         "For every record stream: all readable => Ok(fold); first unreadable record is an EOF error (torn tail) => Ok with the fold of the readable prefix and truncation requested; "
         "any other decode error is reported. Lemmas over the fold: for every sequence of acknowledged transactions and every End-free partial tail the recovered operations are "
-        "exactly the acknowledged ones (atomic, durable), and recovering again gives the same state. Partial: write ordering in commit, orphan files, rename atomicity are not under contract.",
+        "exactly the acknowledged ones (atomic, durable), and recovering again gives the same state. Also: DROP TABLE is logged as ONE drop-complete transaction (precondition of commit_changes), boot apply loop as for C03. Partial: write ordering in commit, orphan files, directory creation, rename atomicity are not under contract.",
    note="Assumes A-serde (a byte prefix of concatenated JSON records yields the complete records then at most one EOF error; StreamDeserializer::byte_offset is the end of the last complete record), each append writes Begin..End with End last; file truncation I/O itself unverified; async sequentialised.",
    technique="Verus loop invariant on the extracted replay loop + inductive lemmas over the transaction log", design='5 (C04), 4.4 U-replay'),
  'C03': dict(
-   text="Function-level proofs on the reopen path: replay of a cleanly written log yields exactly the acknowledged operations in order (U-replay lemma_log_replays_to_acknowledged); further units as listed in evidence. "
-        "Partial: file I/O, rowset open, vacuum and catalog id re-derivation are covered only where the evidence lists a unit.",
+   text="Function-level proofs on the reopen path: replay of a cleanly written log yields exactly the acknowledged operations in order; the boot-time apply loop opens exactly adds minus deletes, re-logs DDL in order and restarts the id generators above every logged row-set id, DV id and DV-referenced row-set id; "
+        "delete-vector files load every record written; DROP TABLE is one drop-complete transaction; catalog id allocation (table-only histories re-derive the same ids; with views/indexes they do not: known finding H8, witness proved). "
+        "Partial: file I/O, DiskRowset::open, vacuum, rewrite_changes are not under contract.",
    note="Same assumptions as C04; catalog/DDL persistence of views, indexes and functions is a recorded known finding (H8) where listed.",
-   technique="Verus contracts on extracted manifest replay / bootstrap apply loops", design='5 (C03), 4.4'),
+   technique="Verus contracts on extracted manifest replay, bootstrap apply, DV file, DROP TABLE and catalog id code", design='5 (C03), 4.4'),
 })
 
 CLAIMED.update({
  'C12': dict(
    text="Function-level proofs on statement ranges extracted from the LIMIT and TopN coroutines: for every (offset, limit) the builder can pass, every chunking and every batch size, "
         "local row i of a batch is emitted iff its global position lies in [offset, offset+limit); the slice is in bounds; no underflow/overflow; the stop test never cuts a window row; "
-        "TopN heap sizing cannot overflow and never pre-allocates more than a window. Partial: ORDER BY/merge order and the planner's 'table is sorted by primary key' assumption are not under contract.",
+        "TopN heap sizing cannot overflow, keeps offset+limit rows and never pre-allocates more than a window; the merge heap used by ordered scans keeps min-heap order and its multiset of entries (sift-up/sift-down proofs). Partial: ORDER BY/merge order and the planner's 'table is sorted by primary key' assumption are not under contract.",
    note="Assumes: limit/offset come from non-negative i64 constants (textual guard on executor/mod.rs); yield/continue/break lines, the child stream and DataChunk::slice are not extracted; allocation policy bound 2^32 rows.",
    technique="Verus contracts on statement ranges extracted from the LIMIT/TopN coroutines", design='5 (C12), 4.5 U-limit/U-topncap'),
 })
@@ -60,7 +62,7 @@ CLAIMED.update({
    technique="Kani loop-free harnesses in place (codecs) + Verus contracts on extracted block builders/iterators", design='5 (C06), 4.1'),
  'C07': dict(
    text="Function-level proofs: the row address used by DELETE packs/unpacks exactly for every (rowset < 2^31, row) and is injective (Kani, in-place function contracts), so a delete can only address the row that was scanned; "
-        "further units (row-handler iterator, merge visibility/heap) as listed in the evidence. Partial (thin): DeleteVector::apply_to (bitvec iterator chain) is outside both verifiers; DV files, compaction commit and reopen are I/O.",
+        "the hidden row-handler column emits exactly the handles of the scanned rows; the merge heap and visible-row search used by compaction/sorted scans are fully proved; DV files load every record; boot restarts DV / row-set id generators above every logged id. Partial (thin): DeleteVector::apply_to (bitvec iterator chain) is outside both verifiers; DV files, compaction commit and reopen are I/O.",
    note="Assumes rowset ids < 2^31 (precondition surfaced by the contract; ids are allocated from 0 by a counter).",
    technique="Kani function contracts in place + Verus contracts on extracted iterators", design='5 (C07), 4.1-4.2'),
 })
